@@ -34,6 +34,7 @@ type mut struct {
 	f                        hdrF
 	txs                      tx.Transactions
 	s                        signSpec
+	stale                    bool // build with the proposer list of a validator that missed a withdrawn endorsement
 	reexec                   bool // recompute gas used / receipts root / state root with the executor
 	keepTxsRoot              bool
 	pinGU, pinRcpt, pinState bool
@@ -56,7 +57,9 @@ func (c *mctx) finalize(m *mut) (*block.Block, error) {
 	}
 	if m.reexec {
 		signer := thor.Address(crypto.PubkeyToAddress(m.s.Key.PublicKey))
+		c.w.asIfEndorsed = m.stale
 		res, _, err := c.w.execute(c.parent, signer, m.f, m.txs)
+		c.w.asIfEndorsed = false
 		if err == nil && res.ok {
 			if !m.pinGU {
 				m.f.GU = res.gasUsed
@@ -376,13 +379,17 @@ func catalogue() []variant {
 	add(hdr("proposer_authorised", "outsider_key", rej, func(c *mctx, m *mut) bool { m.s.Key = c.w.key(9); return true }))
 	add(hdr("proposer_authorised", "fresh_key", rej, func(c *mctx, m *mut) bool { m.s.Key = c.w.poorKey(); return true }))
 	add(hdr("proposer_slot", "other_validator_same_time", rej, func(c *mctx, m *mut) bool {
-		// (an inactive validator shuffles itself into the list: it may own this very slot from its own point of view)
-		p, err := c.w.prestate(c.parent, c.w.addr(c.otherValidator()), m.f.TS)
-		if err != nil || p.owns {
-			return false
+		// another AUTHORISED validator that does not own this slot (an inactive validator shuffles itself into the
+		// list and may own this very slot from its own point of view; one without endorsement is not authorised)
+		for d := 1; d < nVal; d++ {
+			o := (c.who + d) % nVal
+			p, err := c.w.prestate(c.parent, c.w.addr(o), m.f.TS)
+			if err == nil && p.authorised && !p.owns {
+				m.s.Key = c.w.key(o)
+				return true
+			}
 		}
-		m.s.Key = c.w.key(c.otherValidator())
-		return true
+		return false
 	}))
 	slotShift := func(d int64) func(c *mctx, m *mut) bool {
 		return func(c *mctx, m *mut) bool {
@@ -586,6 +593,127 @@ func catalogue() []variant {
 	add(hdr("tx_can_start", "payer_cannot_prepay", rej, crafted(func(c *mctx) (txOpt, bool) {
 		return txOpt{ref: c.num - 1, exp: 10, origin: c.w.poorKey()}, true
 	})))
+	// ---- chain-history dependent shapes --------------------------------------------------------------------------
+	// replay of a tx whose block ref equals the height that first included it (the lower edge of its window)
+	replayEdge := func(back uint32) func(c *mctx, m *mut) bool {
+		return func(c *mctx, m *mut) bool {
+			if c.num <= back {
+				return false
+			}
+			for _, t := range c.w.blocks[c.num-back].Transactions() {
+				if t.BlockRef().Number() == c.num-back && !t.IsExpired(c.num) && t.DependsOn() == nil {
+					c.room(m)
+					m.txs = append(m.txs, t)
+					m.reexec = true
+					return true
+				}
+			}
+			return false
+		}
+	}
+	add(hdr("tx_dup_on_chain", "replay_ref_eq_inclusion_from_parent", rej, replayEdge(1)))
+	add(hdr("tx_dup_on_chain", "replay_ref_eq_inclusion_from_grandparent", rej, replayEdge(2)))
+	add(hdr("tx_dup_on_chain", "replay_ref_eq_inclusion_older", rej, replayEdge(4)))
+	// replays from further back: the long-lived tx (still inside its window)
+	replayOld := func(pick func(c *mctx) uint32) func(c *mctx, m *mut) bool {
+		return func(c *mctx, m *mut) bool {
+			h := pick(c)
+			if h == 0 || h >= c.num {
+				return false
+			}
+			for _, t := range c.w.blocks[h].Transactions() {
+				if t.Expiration() >= 1<<30 && t.DependsOn() == nil && !c.w.txs[t.ID()].reverted {
+					c.room(m)
+					m.txs = append(m.txs, t)
+					m.reexec = true
+					return true
+				}
+			}
+			return false
+		}
+	}
+	add(hdr("tx_dup_on_chain", "replay_from_great_grandparent", rej, replayOld(func(c *mctx) uint32 {
+		if c.num < 4 {
+			return 0
+		}
+		return c.num - 3
+	})))
+	add(hdr("tx_dup_on_chain", "replay_from_block_one", rej, replayOld(func(c *mctx) uint32 {
+		if c.num < 3 {
+			return 0
+		}
+		return 1
+	})))
+	// more than 100 blocks between the ref and the head: the duplicate is found through the tx index, not the scan
+	add(hdr("tx_dup_on_chain", "replay_beyond_scan_window", rej, replayOld(func(c *mctx) uint32 {
+		if c.num < 106 {
+			return 0
+		}
+		return c.num - 103
+	})))
+	farDep := func(wantReverted bool) func(c *mctx, m *mut) bool {
+		return func(c *mctx, m *mut) bool {
+			if c.num < 4 {
+				return false
+			}
+			for _, t := range c.w.blocks[1].Transactions() {
+				if c.w.txs[t.ID()].reverted == wantReverted {
+					id := t.ID()
+					c.room(m)
+					m.txs = append(m.txs, c.w.mkTx(txOpt{ref: c.num - 1, exp: 10, dep: &id}))
+					m.reexec = true
+					return true
+				}
+			}
+			return false
+		}
+	}
+	add(hdr("tx_dep_not_reverted", "reverted_in_block_one", rej, farDep(true)))
+	add(hdr("tx_dep_present", "dependency_in_block_one", acc, farDep(false)))
+	add(hdr("tx_signature", "delegator_unrecoverable", rej, func(c *mctx, m *mut) bool {
+		if !c.w.vip191At(c.num) {
+			return false
+		}
+		t := c.w.mkTx(txOpt{ref: c.num - 1, exp: 10, feat: tx.DelegationFeature, origin: c.w.key(7), delegator: c.w.key(8)})
+		sig := t.Signature()
+		for i := 65; i < len(sig); i++ {
+			sig[i] = 0xff
+		}
+		c.room(m)
+		m.txs = append(m.txs, t.WithSignature(sig))
+		m.reexec = true
+		return true
+	}))
+	// blocklist: rejected from the BLOCKLIST fork on, admissible before
+	add(variant{"tx_blocklist", "origin_blocked", "", crafted(func(c *mctx) (txOpt, bool) {
+		return txOpt{ref: c.num - 1, exp: 10, origin: c.w.key(blockedDev)}, true
+	})})
+	add(variant{"tx_blocklist", "delegator_blocked", "", crafted(func(c *mctx) (txOpt, bool) {
+		return txOpt{ref: c.num - 1, exp: 10, feat: tx.DelegationFeature, origin: c.w.key(7), delegator: c.w.key(blockedDev)}, c.w.vip191At(c.num)
+	})})
+	// a validator whose endorsement was withdrawn, signing a block that is consistent in every other respect with a
+	// proposer list that still contains it (what a stale cache would believe)
+	add(hdr("proposer_authorised", "endorsement_withdrawn", rej, func(c *mctx, m *mut) bool {
+		if c.pre.pos {
+			return false
+		}
+		for v := 0; v < nVal; v++ {
+			p, err := c.w.prestate(c.parent, c.w.addr(v), m.f.TS)
+			if err != nil || p.authorised {
+				continue
+			}
+			c.w.asIfEndorsed = true
+			t, ps, ok := c.ownSlotAfter(c.w.addr(v), c.parent.Header.Timestamp())
+			c.w.asIfEndorsed = false
+			if !ok {
+				continue
+			}
+			m.s.Key = c.w.key(v)
+			m.f.TS, m.f.Score, m.f.Benef, m.stale, m.reexec = t, c.parent.Header.TotalScore()+ps.score, c.w.addr(v), true, true
+			return true
+		}
+		return false
+	}))
 	return v
 }
 
